@@ -68,6 +68,8 @@ pub proof fn lemma_seq_val{X}(d: Seq<{I}>, n: nat)
         let g = |t: int| seqf{X}(d)({I.bits} * m + t);
         assert forall|t: int| 0 <= t < {I.bits} implies #[trigger] g(t) == wordf{X}(d[m as int])(t) by {
             let b = {I.bits} * m + t;
+            assert(b == (m as int) * {I.bits} + t) by(nonlinear_arith) requires b == {I.bits} * m + t;
+            lemma_divmod_at{X}(m as int, t);
             assert(b / {I.bits} == m as int && b % {I.bits} == t);
         }
         lemma_fval_ext(g, wordf{X}(d[m as int]), {I.bits});
